@@ -41,6 +41,11 @@ func sigTabInToken(src string) bool {
 			if strings.ContainsAny(tok.Text, "\t\v\f") {
 				return true
 			}
+			// write() also strips one blank next to every line break of the joined text, token
+			// interiors included (once per nesting level and again on every later format run)
+			if strings.Contains(tok.Text, " \n") || strings.Contains(tok.Text, "\n ") || strings.Contains(tok.Text, " \r") {
+				return true
+			}
 		}
 	}
 	return false
